@@ -3,6 +3,7 @@ package scen
 import (
 	"bufio"
 	"context"
+	"encoding/json"
 	"fmt"
 	"io"
 	"strings"
@@ -70,6 +71,21 @@ func (sw *svcWorld) activeDelta() [3]int64 {
 		stats.FlvConns.GetSample().Active - sw.base[1].Active,
 		stats.WspConns.GetSample().Active - sw.base[2].Active,
 	}
+}
+
+// login obtains an access token through the real API.
+func (sw *svcWorld) login(name, user, pw string) (access, refresh string, status int) {
+	b, _ := json.Marshal(map[string]string{"username": user, "password": pw})
+	res := sw.httpDo(name, "POST", "/api/v1/login", map[string]string{"Content-Type": "application/json"}, string(b))
+	if res.Err != nil || res.Status != 200 {
+		return "", "", res.Status
+	}
+	var t struct {
+		A string `json:"access_token"`
+		R string `json:"refresh_token"`
+	}
+	json.Unmarshal(res.Body, &t)
+	return t.A, t.R, res.Status
 }
 
 // teardown closes everything the scenario opened (run from Cleanup).
